@@ -420,6 +420,24 @@ def _install_spies():
             FLAGS['x.maxns'] = nn
         return ev
     axml.AXMLParser.__next__ = __next__
+    def wrap_max(cls, name, flag, size):
+        orig = getattr(cls, name)
+
+        def spy(self, *a, **k):
+            try:
+                return orig(self, *a, **k)
+            finally:
+                try:
+                    v = size(self)
+                    if v > FLAGS.get(flag, 0):
+                        FLAGS[flag] = v
+                except Exception:
+                    pass
+        spy.__name__ = orig.__name__
+        spy.__qualname__ = getattr(orig, '__qualname__', orig.__name__)
+        setattr(cls, name, spy)
+    wrap_max(axml.StringBlock, '__init__', 'pool.strings', lambda sb: len(sb.m_stringOffsets))
+    wrap_max(axml.ARSCComplex, '__init__', 'r.bagitems', lambda c: len(c.items))
     wrap(axml.ARSCResTableEntry, '__init__', 'r.entries')
     wrap(axml.ARSCResType, '__init__', 'r.types')
     wrap(axml.ARSCResTypeSpec, '__init__', 'r.specs')
@@ -859,6 +877,13 @@ def evaluate(ctx, target, data, labels=(), origin=None, record=True, res=None):
             lab.append('%s:%s' % (target, out))
         lab += tail_labels(res.get('flags', {}))
         lab += wide_labels(target, res.get('flags', {}))
+        if res.get('cpu') and out != 'timeout':
+            # margin of the oracle, measured: how much of its budget did a case that finished use
+            frac = res['cpu'] / budget
+            if frac >= 0.1:
+                lab.append('budget-used>=10%')
+                if frac >= 0.33:
+                    lab.append('budget-used>=33%')
         ctx.case(nontrivial=nt, key=target.encode() + b'\0' + data, labels=lab,
                  sample={'target': target, 'len': len(data), 'origin': origin, 'outcome': out,
                          'cpu_s': res.get('cpu'), 'head': data[:24].hex()})
@@ -2088,7 +2113,10 @@ def _dex_arrays(data, n):
     if mo and mo + 4 <= len(data):
         cnt = _u32(data, mo)
         if cnt >= n // 2 and mo + 4 + 12 * cnt <= len(data):
-            arr.append({'start': mo + 4, 'stride': 12, 'count': cnt, 'fields': (8, 4, 0), 'count_at': (mo, 4), 'pool': len(data)})
+            # fields: offset and type - NOT the size: n map items that all declare a large size make MapItem.parse
+            # read the same section n times (n x m work for 12 n + m bytes: quadratic in the length of the input, see the
+            # open finding 'map-list-repeated-items'); a whole-array fill of the size field would produce exactly that
+            arr.append({'start': mo + 4, 'stride': 12, 'count': cnt, 'fields': (8, 0), 'count_at': (mo, 4), 'pool': len(data)})
     return arr
 
 
@@ -2237,6 +2265,8 @@ def wide_labels(target, flags):
     for key, name, steps in (('x.maxattrs', 'axml:wide:attrs', (1138, 5000, 20000)), ('x.tags', 'axml:wide:elements', (1000, 5000, 20000)),
                              ('x.maxdepth', 'axml:wide:depth', (1000, 5000, 20000)), ('x.maxns', 'axml:wide:namespaces', (1000, 5000, 20000)),
                              ('x.events', 'axml:wide:events', (1000, 5000, 20000)),
+                             ('pool.strings', 'res:wide:pool-strings', (1000, 5000, 20000)),
+                             ('r.bagitems', 'arsc:wide:bag-items', (1000, 5000, 20000)),
                              ('r.entries', 'arsc:wide:entries', (1000, 5000, 20000)), ('r.types', 'arsc:wide:type-chunks', (1000, 5000)),
                              ('r.specs', 'arsc:wide:typespecs', (255, 1000)), ('r.packages', 'arsc:wide:packages', (255, 1000, 5000)),
                              ('dex.mapitems', 'dex:wide:map-items', (1000, 5000, 20000)), ('dex.strings', 'dex:wide:strings', (1000, 5000, 20000)),
@@ -2336,7 +2366,7 @@ TAIL_SHARDS = [('tail', 'axml', 'sys'), ('tail', 'arsc', 'sys'), ('tail', 'axml'
 
 
 # wide seeds (one structure with thousands of items): one shard per format, seeds built inside the worker
-WIDE_SHARDS = [('wide', 'apk'), ('wide', 'axml'), ('wide', 'arsc'), ('wide', 'dex')]
+WIDE_SHARDS = [('wide', 'axml'), ('wide', 'apk'), ('wide', 'arsc'), ('wide', 'dex')]
 
 
 def shards(tier, seed):
@@ -2348,12 +2378,12 @@ def shards(tier, seed):
         _warmup()
         _PARENT_WARM.add(os.getpid())
     if tier == 'quick':
-        # 21 shards for 16 workers, longest first: the five short tail shards start at once, the shards that take
-        # 10-25 s (sys dex / axml, hyp apk) are picked up by the workers that finish them
+        # 25 shards for 16 workers, longest first: the eleven 55 s shards, the four wide shards (40 s) and one short tail
+        # shard start at once; the other tail shards and the shards that take 10-25 s (sys dex / axml, hyp apk) are picked
+        # up by the workers that finish first
         sh = [('hyp', 'arsc', k) for k in range(3)] + [('sys', 'arsc')] + [('hyp', 'axml', k) for k in range(2)] + \
-             [('hyp', 'dex', k) for k in range(4)] + [('sys', 'apk')] + TAIL_SHARDS + \
+             [('hyp', 'dex', k) for k in range(4)] + [('sys', 'apk')] + WIDE_SHARDS + TAIL_SHARDS + \
              [('sys', 'dex')] + [('hyp', 'apk', k) for k in range(3)] + [('sys', 'axml')]
-        sh = WIDE_SHARDS + sh
     else:
         sh = [('hyp', 'dex', k) for k in range(10)] + [('hyp', 'axml', k) for k in range(5)] + \
              [('hyp', 'arsc', k) for k in range(6)] + [('hyp', 'apk', k) for k in range(7)] + \
@@ -2796,7 +2826,7 @@ def _wide_cap(ctx):
     try:
         return float(os.environ['C35_WIDE_CAP_S'])
     except (KeyError, ValueError):
-        return 45.0 if ctx.tier == 'quick' else 240.0
+        return 40.0 if ctx.tier == 'quick' else 240.0
 
 
 def _run_wide(ctx, fmt):
@@ -2848,7 +2878,7 @@ def _run_wide(ctx, fmt):
             hyp_collect(ctx, strat, fn, 40, salt=hash_salt(fmt, 70) * 1000 + done[0], shrink=False)
             done[0] += 1
     for n in WIDE_N:
-        if _over_budget(ctx, cap * 0.8):
+        if _over_budget(ctx, cap * 0.7):
             ctx.count('wide_sizes_not_built:%s:%d' % (fmt, n))
             continue
         batch = wide_seeds(fmt, ctx.tier, sizes=(n,))
